@@ -208,6 +208,200 @@ theorem witRigor_sound {P : Problem} {loup : Ext} {b : Box} (h : witRigor P loup
     exact le_trans (itvVal_encl hz hρ hv).2 ((Ext.le_iff _ _).1 ho)
   · cases ho
 
+/-! ## the refuting checkers -/
+
+/-- the enclosure `z` of the values refutes `v spec 0` (equalities: `|v| ≤ epsH`, exactly `v = 0` in rigor mode) -/
+theorem specRefuted_sound {e : ℚ} {rigor : Bool} {spec : String} {z : Itv}
+    (h : specRefuted e rigor spec z = true) {v : ℝ} (hv : v ∈ z) :
+    ¬ SpecHolds (if rigor then (0 : ℝ) else (e : ℝ)) spec v := by
+  cases z with
+  | empty => simp [specRefuted] at h
+  | mk lo hi =>
+    rw [Itv.mem_mk] at hv
+    obtain ⟨hlo, hhi⟩ := hv
+    simp only [specRefuted] at h
+    split_ifs at h with h1 h2 h3 h4 h5
+    · -- leq : 0 < lo
+      subst h1
+      have h0 : (0 : ℝ) < v := by
+        have := lt_of_lt_of_le ((Ext.lt_iff _ _).1 h) hlo
+        simpa using this
+      rintro (⟨-, hs⟩ | ⟨hne, -⟩ | ⟨hne, -⟩ | ⟨hne, -⟩ | ⟨hne, -⟩)
+      · linarith
+      all_goals exact absurd hne (by decide)
+    · -- lt : 0 ≤ lo
+      subst h2
+      have h0 : (0 : ℝ) ≤ v := by
+        have := le_trans ((Ext.le_iff _ _).1 h) hlo
+        simpa using this
+      rintro (⟨hne, -⟩ | ⟨-, hs⟩ | ⟨hne, -⟩ | ⟨hne, -⟩ | ⟨hne, -⟩)
+      · exact absurd hne (by decide)
+      · linarith
+      all_goals exact absurd hne (by decide)
+    · -- geq : hi < 0
+      subst h3
+      have h0 : v < (0 : ℝ) := by
+        have := lt_of_le_of_lt hhi ((Ext.lt_iff _ _).1 h)
+        simpa using this
+      rintro (⟨hne, -⟩ | ⟨hne, -⟩ | ⟨-, hs⟩ | ⟨hne, -⟩ | ⟨hne, -⟩)
+      · exact absurd hne (by decide)
+      · exact absurd hne (by decide)
+      · linarith
+      all_goals exact absurd hne (by decide)
+    · -- gt : hi ≤ 0
+      subst h4
+      have h0 : v ≤ (0 : ℝ) := by
+        have := le_trans hhi ((Ext.le_iff _ _).1 h)
+        simpa using this
+      rintro (⟨hne, -⟩ | ⟨hne, -⟩ | ⟨hne, -⟩ | ⟨-, hs⟩ | ⟨hne, -⟩)
+      · exact absurd hne (by decide)
+      · exact absurd hne (by decide)
+      · exact absurd hne (by decide)
+      · linarith
+      · exact absurd hne (by decide)
+    · -- eq, rigor : 0 < lo or hi < 0
+      subst h5
+      rename_i hr
+      subst hr
+      simp only [Bool.or_eq_true] at h
+      rintro (⟨hne, -⟩ | ⟨hne, -⟩ | ⟨hne, -⟩ | ⟨hne, -⟩ | ⟨-, hs⟩)
+      · exact absurd hne (by decide)
+      · exact absurd hne (by decide)
+      · exact absurd hne (by decide)
+      · exact absurd hne (by decide)
+      · simp only [if_true] at hs
+        rw [abs_le] at hs
+        rcases h with h | h
+        · have := lt_of_lt_of_le ((Ext.lt_iff _ _).1 h) hlo
+          have h0 : (0 : ℝ) < v := by simpa using this
+          linarith [hs.2]
+        · have := lt_of_le_of_lt hhi ((Ext.lt_iff _ _).1 h)
+          have h0 : v < (0 : ℝ) := by simpa using this
+          linarith [hs.1]
+    · -- eq, no rigor : epsH < lo or hi < -epsH
+      subst h5
+      rename_i hr
+      have hr' : rigor = false := by simpa using hr
+      subst hr'
+      simp only [Bool.or_eq_true] at h
+      rintro (⟨hne, -⟩ | ⟨hne, -⟩ | ⟨hne, -⟩ | ⟨hne, -⟩ | ⟨-, hs⟩)
+      · exact absurd hne (by decide)
+      · exact absurd hne (by decide)
+      · exact absurd hne (by decide)
+      · exact absurd hne (by decide)
+      · simp only [Bool.false_eq_true, if_false] at hs
+        rw [abs_le] at hs
+        rcases h with h | h
+        · have := lt_of_lt_of_le ((Ext.lt_iff _ _).1 h) hlo
+          have h0 : (e : ℝ) < v := by simpa using this
+          linarith [hs.2]
+        · have := lt_of_le_of_lt hhi ((Ext.lt_iff _ _).1 h)
+          rw [Ext.toE_fin, Rat.cast_neg] at this
+          have h0 : v < -(e : ℝ) := by exact_mod_cast this
+          linarith [hs.1]
+
+/-- what a refuted box means: it is empty, or it leaves the initial box, or some constraint is violated at EVERY real
+    point of the box at which it is defined (equalities: exactly in rigor mode, beyond `eps_h` otherwise), or the
+    model's enclosure of the objective on the box exceeds `loup` -/
+theorem witBoxRefuted_sound {P : Problem} {rigor : Bool} {loup : Ext} {b : Box}
+    (h : witBoxRefuted P rigor loup b = true) :
+    Box.isEmpty b = true ∨ Box.subset b P.box = false ∨
+    (∃ c ∈ P.ctrs, ∀ ρ, Box.Mem ρ b → ∀ v, RealVal c.1 ρ v →
+      ¬ SpecHolds (if rigor then (0 : ℝ) else (P.epsH : ℝ)) c.2 v) ∨
+    (∃ lo hi, itvVal P.obj b = some (.mk lo hi) ∧ Ext.le hi loup = false) := by
+  simp only [witBoxRefuted, Bool.or_eq_true, Bool.not_eq_true', List.any_eq_true] at h
+  rcases h with ((h | h) | ⟨c, hc, h⟩) | h
+  · exact Or.inl h
+  · exact Or.inr (Or.inl h)
+  · refine Or.inr (Or.inr (Or.inl ⟨c, hc, fun ρ hρ v hv => ?_⟩))
+    split at h
+    · rename_i z hz
+      exact specRefuted_sound h (itvVal_encl hz hρ hv)
+    · cases h
+  · refine Or.inr (Or.inr (Or.inr ?_))
+    split at h
+    · rename_i lo hi hz
+      exact ⟨lo, hi, hz, by simpa using h⟩
+    · cases h
+
+theorem specSat_complete {e : ℚ} {spec : String} {v : ℚ} (h : specSat e spec v = false) :
+    ¬ SpecHolds (e : ℝ) spec (v : ℝ) := by
+  unfold specSat at h
+  rintro (⟨hs, hv⟩ | ⟨hs, hv⟩ | ⟨hs, hv⟩ | ⟨hs, hv⟩ | ⟨hs, hv⟩) <;> subst hs
+  · simp only [if_true, decide_eq_false_iff_not] at h
+    exact h (by exact_mod_cast hv)
+  · simp only [show ¬ ("lt" = "leq") by decide, if_false, if_true, decide_eq_false_iff_not] at h
+    exact h (by exact_mod_cast hv)
+  · simp only [show ¬ ("geq" = "leq") by decide, show ¬ ("geq" = "lt") by decide, if_false, if_true,
+      decide_eq_false_iff_not] at h
+    exact h (by exact_mod_cast hv)
+  · simp only [show ¬ ("gt" = "leq") by decide, show ¬ ("gt" = "lt") by decide, show ¬ ("gt" = "geq") by decide,
+      if_false, if_true, decide_eq_false_iff_not] at h
+    exact h (by exact_mod_cast hv)
+  · simp only [show ¬ ("eq" = "leq") by decide, show ¬ ("eq" = "lt") by decide, show ¬ ("eq" = "geq") by decide,
+      show ¬ ("eq" = "gt") by decide, if_false, if_true, Bool.and_eq_false_iff, decide_eq_false_iff_not] at h
+    rw [abs_le] at hv
+    rcases h with h | h
+    · exact h (by exact_mod_cast hv.1)
+    · exact h (by exact_mod_cast hv.2)
+
+theorem containsExt_fin_complete {I : Itv} {q : ℚ} (h : Itv.containsExt I (.fin q) = false) : ¬ (q : ℝ) ∈ I := by
+  cases I with
+  | empty => exact Itv.not_mem_empty _
+  | mk a b =>
+    intro hm
+    rw [Itv.mem_mk] at hm
+    have : Itv.containsExt (.mk a b) (.fin q) = true := by
+      simp only [Itv.containsExt, Bool.and_eq_true, Ext.le_iff, Ext.toE_fin]
+      exact hm
+    rw [h] at this
+    cases this
+
+theorem inBoxQ_complete : ∀ {p : List ℚ} {b : Box}, inBoxQ p b = false → ¬ Box.Mem (castPt p) b
+  | [], [], h => by simp [inBoxQ] at h
+  | q :: ps, I :: bs, h => by
+    simp only [inBoxQ, Bool.and_eq_false_iff] at h
+    simp only [castPt, List.map_cons]
+    intro hm
+    obtain ⟨h1, h2⟩ := Box.mem_cons.1 hm
+    rcases h with h | h
+    · exact containsExt_fin_complete h h1
+    · exact inBoxQ_complete h h2
+  | [], _ :: _, _ => fun hm => by simpa [castPt] using hm.length_eq
+  | _ :: _, [], _ => fun hm => by simpa [castPt] using hm.length_eq
+
+/-- **a point refuted exactly is not a feasible real point**: it lies outside the box, or some constraint is defined
+    at it (hence has THE value computed exactly) and violated -/
+theorem infeasQ_sound {P : Problem} {p : List ℚ} (h : infeasQ P p = true) : ¬ Feasible P (castPt p) := by
+  simp only [infeasQ, Bool.or_eq_true, Bool.not_eq_true', List.any_eq_true] at h
+  rintro ⟨hbox, hctr⟩
+  rcases h with h | ⟨c, hc, h⟩
+  · exact inBoxQ_complete h hbox
+  · obtain ⟨w, hw, hs⟩ := hctr c hc
+    split at h
+    · rename_i v hv
+      have : w = (v : ℝ) := RealVal.unique hw (evalQ_real hv)
+      subst this
+      exact specSat_complete (by simpa using h) hs
+    · cases h
+
+/-- a refuted point witness is not a witness: not feasible, or its objective value (the real one) is above `loup` -/
+theorem witRefuted_sound {P : Problem} {loup : Ext} {p : List ℚ} (h : witRefuted P loup p = true) :
+    ¬ (Feasible P (castPt p) ∧ ∃ v, RealVal P.obj (castPt p) v ∧ ((v : ℝ) : EReal) ≤ loup.toE) := by
+  simp only [witRefuted, Bool.or_eq_true] at h
+  rintro ⟨hf, w, hw, hle⟩
+  rcases h with h | h
+  · exact infeasQ_sound h hf
+  · split at h
+    · rename_i v hv
+      have : w = (v : ℝ) := RealVal.unique hw (evalQ_real hv)
+      subst this
+      have h' : Ext.le (.fin v) loup = false := by simpa using h
+      have : Ext.le (.fin v) loup = true := (Ext.le_iff _ _).2 (by simpa using hle)
+      rw [h'] at this
+      cases this
+    · cases h
+
 /-! ## status -/
 
 /-- the precision test of the optimizer, on the exact values of the doubles -/
